@@ -250,3 +250,58 @@ def ratpoly(t, atomize=None):
 def rat_equal(a, b):
     (n1, d1), (n2, d2) = a, b
     return pkey(pmul(n1, d2)) == pkey(pmul(n2, d1))
+
+
+# ---------------------------------------------------------------------------- small propositional simplifier
+def negate(p):
+    k = p[0]
+    if k == "atom":
+        return ("atom", p[1], not p[2])
+    if k == ">0":
+        return (">=0", pkey({m: -c for m, c in dict(p[1]).items()}))
+    if k == ">=0":
+        return (">0", pkey({m: -c for m, c in dict(p[1]).items()}))
+    if k == "==0":
+        return ("!=0", p[1])
+    if k == "!=0":
+        return ("==0", p[1])
+    if k == "nonempty":
+        return ("empty", p[1])
+    if k == "empty":
+        return ("nonempty", p[1])
+    if k == "and":
+        return ("or", frozenset(negate(x) for x in p[1]))
+    if k == "or":
+        return ("and", frozenset(negate(x) for x in p[1]))
+    if k == "const":
+        return ("const", not p[1])
+    return ("not", p)
+
+
+def resolve(cnf):
+    """unit resolution on a conjunction (frozenset) of predicates"""
+    cnf = set(cnf)
+    changed = True
+    while changed:
+        changed = False
+        units = {p for p in cnf if p[0] not in ("or", "and")}
+        for p in list(cnf):
+            if p[0] == "and":
+                cnf.remove(p)
+                cnf |= set(p[1])
+                changed = True
+            elif p[0] == "or":
+                rest = frozenset(x for x in p[1] if negate(x) not in units)
+                if any(x in units for x in rest):
+                    cnf.remove(p)
+                    changed = True
+                elif rest != p[1]:
+                    cnf.remove(p)
+                    if len(rest) == 1:
+                        cnf.add(next(iter(rest)))
+                    elif rest:
+                        cnf.add(("or", rest))
+                    else:
+                        cnf.add(("const", False))
+                    changed = True
+    return frozenset(cnf)
